@@ -69,7 +69,7 @@ func tail(tr []string) []string {
 const hugeMem = 1 << 40
 
 func ladder(c *vp.Child) {
-	n := c.Pick(1200, 20000)
+	n := c.Pick(1200, 10000)
 	if strings.HasSuffix(c.Stage, "-race") {
 		n = c.Pick(40, 600)
 	}
